@@ -378,6 +378,21 @@ def run(ctx):
                                                     "numbers:mixed int/float beyond 2^53"]
         ctx.case(cls, ("mixed", value, lo, hi, tol, type(value).__name__, type(lo).__name__, type(hi).__name__))
         drive(ctx, value, lo, hi, tol)
+    # long memory: the grid cases once more after 50000 distinct rectangles / ranges each (raw calls)
+    from .. import longrun
+    from plotink import plot_utils as _pu3
+    early = longrun.Early(48)
+    for lo in range(0, 4):
+        for hi in range(lo, 4):
+            for value in (-1, 0, 2, 3, 5):
+                early.remember((value, lo, hi, 1))
+    for fname, mk in (("point_in_bounds", lambda k: ([k % 7, 3.5], [[0.0, 0.0], [10.0 + k, 8.0]], 1e-9)),
+                      ("checkLimitsTol", lambda k: (k % 11, 0.0, 5.0 + k, 0.5)),
+                      ("checkLimits", lambda k: (k % 11, 0.0, 5.0 + k)),
+                      ("constrainLimits", lambda k: (k % 11, 0.0, 5.0 + k))):
+        longrun.churn_then_replay(ctx, _pu3, fname, mk, early if fname == "constrainLimits" else longrun.Early(0),
+                                  lambda it: drive(ctx, *it), n_quick=50_000, n_thorough=120_000)
+    ctx.need("history: asked again after many other distinct requests", 30)
     ctx.need("shape: point given as a one-shot iterator", 2000)
     ctx.need("shape: bounds given as one-shot iterators", 1000)
     for cls in ("numbers:mixed int/float beyond 2^53", "below lower-tol", "exactly lower-tol", "within tol below lower", "exactly lower",
